@@ -3,6 +3,8 @@ Layer M of the C13 argument: a deepening pass that no poll cuts short reports ex
 plain-minimax value of the root (`rootValue`), whatever the order in which the moves are tried and
 whatever the previous best move was: alpha-beta with the engine's fail-soft bookkeeping is exact
 inside its window and the root window is (`Min`, `Max`).  Statements fixed; proofs below.
+Everything here holds for both values of the engine's `positional` flag `pos` (the argument uses of the evaluation
+only that it is a function of the board returning a numeric score).
 -/
 import ChessVerif.Proofs.Minimax.Defs
 import ChessVerif.Proofs.Search
@@ -12,6 +14,8 @@ import ChessVerif.Proofs.Minimax.RootExact
 namespace Chess.Proofs.Minimax
 open Chess Chess.Spec Chess.Engine Chess.MoveGen Chess.Proofs.Search
 
+variable (pos : Bool)
+
 /-- **exactness of one pass**: for a well-formed root without promotion moves (the property's
 hypothesis; `remove_move` of a promotion drops all four choices, finding F11), a pass that
 completes reports the plain-minimax value, and its best move is again a legal move -/
@@ -19,9 +23,9 @@ theorem pass_exact (b : Board) (hwf : b.WF = true) (tf : ThreeFold) (k depth : N
     (bestMv : Option Move) (st st' : St) (p : Pass)
     (hnp : ∀ m ∈ mvsOf (legals b), m.piece = none)
     (hb : ∀ m, bestMv = some m → m ∈ mvsOf (legals b))
-    (h : pass k b b.turn tf depth bestMv st = (some p, st')) :
-    p.score = rootValue b tf depth ∧ (∀ m, p.best = some m → m ∈ mvsOf (legals b)) := by
-  have := pass_exact' b hwf b.turn tf k depth bestMv st st' p hnp hb h
+    (h : pass pos k b b.turn tf depth bestMv st = (some p, st')) :
+    p.score = rootValue pos b tf depth ∧ (∀ m, p.best = some m → m ∈ mvsOf (legals b)) := by
+  have := pass_exact' pos b hwf b.turn tf k depth bestMv st st' p hnp hb h
   exact ⟨this.1, this.2.2.2.2⟩
 
 /-- every pass the deepening loop completes reports the plain-minimax value of its depth, as long
@@ -29,7 +33,7 @@ as the best move carried into it is a legal move -/
 theorem completed_exact (b : Board) (hwf : b.WF = true) (tf : ThreeFold) (k : Nat)
     (hnp : ∀ m ∈ mvsOf (legals b), m.piece = none) :
     ∀ passes depth bestMv st, (∀ m, bestMv = some m → m ∈ mvsOf (legals b)) →
-      ∀ ds ∈ completed k b b.turn tf passes depth bestMv st, ds.2 = rootValue b tf ds.1 := by
+      ∀ ds ∈ completed pos k b b.turn tf passes depth bestMv st, ds.2 = rootValue pos b tf ds.1 := by
   intro passes
   induction passes with
   | zero =>
@@ -39,13 +43,13 @@ theorem completed_exact (b : Board) (hwf : b.WF = true) (tf : ThreeFold) (k : Na
   | succ passes ih =>
     intro depth bestMv st hb ds hds
     rw [completed.eq_2] at hds
-    cases hp : pass k b b.turn tf depth bestMv st with
+    cases hp : pass pos k b b.turn tf depth bestMv st with
     | mk op st' =>
       rw [hp] at hds
       cases op with
       | none => cases hds
       | some p3 =>
-        obtain ⟨e1, e2⟩ := pass_exact b hwf tf k depth bestMv st st' p3 hnp hb hp
+        obtain ⟨e1, e2⟩ := pass_exact pos b hwf tf k depth bestMv st st' p3 hnp hb hp
         simp only at hds
         rcases List.mem_cons.1 hds with rfl | hrest
         · exact e1
@@ -57,8 +61,8 @@ theorem completed_exact (b : Board) (hwf : b.WF = true) (tf : ThreeFold) (k : Na
 /-- every completed pass of a search reports the plain-minimax value of its depth -/
 theorem searchPasses_exact (b : Board) (hwf : b.WF = true) (tf : ThreeFold) (k : Nat)
     (hnp : ∀ m ∈ mvsOf (legals b), m.piece = none) :
-    ∀ ds ∈ searchPasses b tf k, ds.2 = rootValue b tf ds.1 :=
-  completed_exact b hwf tf k hnp (k + 2) 0 none ⟨0, 0⟩ (fun m hm => by cases hm)
+    ∀ ds ∈ searchPasses pos b tf k, ds.2 = rootValue pos b tf ds.1 :=
+  completed_exact pos b hwf tf k hnp (k + 2) 0 none ⟨0, 0⟩ (fun m hm => by cases hm)
 
 /-- what `deepen` does with the outcome of a pass -/
 def afterPass (k : Nat) (b : Board) (pc : Color) (tf : ThreeFold) (passes depth : Nat)
@@ -68,16 +72,16 @@ def afterPass (k : Nat) (b : Board) (pc : Color) (tf : ThreeFold) (passes depth 
   | (some p3, st') =>
     match p3.score with
     | .blackMateIn _ | .whiteMateIn _ => ⟨p3.best, p3.score, depth, st'.evals, st'.polls⟩
-    | _ => deepen k b pc tf passes (if depth + 1 ≥ 65535 then 65535 else depth + 1) p3.best p3.score depth st'
+    | _ => deepen pos k b pc tf passes (if depth + 1 ≥ 65535 then 65535 else depth + 1) p3.best p3.score depth st'
 
 theorem passTail_passEnd (k : Nat) (b : Board) (pc : Color) (tf : ThreeFold) (passes depth : Nat)
     (bestMv : Option Move) (bestScore : Score) (maxDepth : Nat) (p1 : Pass) (moves : MoveGen) (st : St) :
-    passTail k b pc tf passes depth bestMv bestScore maxDepth p1 moves st =
-      afterPass k b pc tf passes depth bestMv bestScore maxDepth (passEnd k b pc tf depth p1 moves st) := by
-  rw [passTail_eq k b pc tf passes depth bestMv bestScore maxDepth p1 moves st _ _ rfl rfl]
+    passTail pos k b pc tf passes depth bestMv bestScore maxDepth p1 moves st =
+      afterPass pos k b pc tf passes depth bestMv bestScore maxDepth (passEnd pos k b pc tf depth p1 moves st) := by
+  rw [passTail_eq pos k b pc tf passes depth bestMv bestScore maxDepth p1 moves st _ _ rfl rfl]
   unfold passEnd
   simp only
-  generalize rootLoop k b pc depth tf 5000 (MoveGen.setMask _ BB.full) _ _ = l2
+  generalize rootLoop pos k b pc depth tf 5000 (MoveGen.setMask _ BB.full) _ _ = l2
   by_cases hd : l2.2.2.polls ≥ k
   · rw [if_pos hd, if_pos hd]
     rfl
@@ -86,13 +90,13 @@ theorem passTail_passEnd (k : Nat) (b : Board) (pc : Color) (tf : ThreeFold) (pa
 
 theorem deepen_pass (k : Nat) (b : Board) (pc : Color) (tf : ThreeFold) (passes depth : Nat)
     (bestMv : Option Move) (bestScore : Score) (maxDepth : Nat) (st : St) :
-    deepen k b pc tf (passes + 1) depth bestMv bestScore maxDepth st =
-      afterPass k b pc tf passes depth bestMv bestScore maxDepth (pass k b pc tf depth bestMv st) := by
+    deepen pos k b pc tf (passes + 1) depth bestMv bestScore maxDepth st =
+      afterPass pos k b pc tf passes depth bestMv bestScore maxDepth (pass pos k b pc tf depth bestMv st) := by
   cases bestMv with
   | none => rw [deepen_none, pass_none_eq, passTail_passEnd]
   | some mv =>
     rw [deepen_some, pass_some_eq]
-    cases hr : rootMove k b pc depth tf mv (pass0 pc) st with
+    cases hr : rootMove pos k b pc depth tf mv (pass0 pc) st with
     | mk op st' =>
       cases op with
       | none => rfl
@@ -100,13 +104,13 @@ theorem deepen_pass (k : Nat) (b : Board) (pc : Color) (tf : ThreeFold) (passes 
 
 theorem deepen_reports (k : Nat) (b : Board) (pc : Color) (tf : ThreeFold) :
     ∀ passes depth bestMv bestScore maxDepth st,
-      ((completed k b pc tf passes depth bestMv st).getLast? = none →
-        (deepen k b pc tf passes depth bestMv bestScore maxDepth st).score = bestScore ∧
-          (deepen k b pc tf passes depth bestMv bestScore maxDepth st).move = bestMv ∧
-          (deepen k b pc tf passes depth bestMv bestScore maxDepth st).maxDepth = maxDepth) ∧
-      (∀ d s, (completed k b pc tf passes depth bestMv st).getLast? = some (d, s) →
-        (deepen k b pc tf passes depth bestMv bestScore maxDepth st).score = s ∧
-          (deepen k b pc tf passes depth bestMv bestScore maxDepth st).maxDepth = d) := by
+      ((completed pos k b pc tf passes depth bestMv st).getLast? = none →
+        (deepen pos k b pc tf passes depth bestMv bestScore maxDepth st).score = bestScore ∧
+          (deepen pos k b pc tf passes depth bestMv bestScore maxDepth st).move = bestMv ∧
+          (deepen pos k b pc tf passes depth bestMv bestScore maxDepth st).maxDepth = maxDepth) ∧
+      (∀ d s, (completed pos k b pc tf passes depth bestMv st).getLast? = some (d, s) →
+        (deepen pos k b pc tf passes depth bestMv bestScore maxDepth st).score = s ∧
+          (deepen pos k b pc tf passes depth bestMv bestScore maxDepth st).maxDepth = d) := by
   intro passes
   induction passes with
   | zero =>
@@ -116,7 +120,7 @@ theorem deepen_reports (k : Nat) (b : Board) (pc : Color) (tf : ThreeFold) :
   | succ passes ih =>
     intro depth bestMv bestScore maxDepth st
     rw [completed.eq_2, deepen_pass]
-    cases hp : pass k b pc tf depth bestMv st with
+    cases hp : pass pos k b pc tf depth bestMv st with
     | mk op st' =>
       cases op with
       | none =>
@@ -137,16 +141,16 @@ theorem deepen_reports (k : Nat) (b : Board) (pc : Color) (tf : ThreeFold) :
             · rw [List.getLast?_eq_none_iff] at h; cases h
             · rw [List.getLast?_cons_cons]; exact h
         have fin : ∀ R : Result,
-            (((completed k b pc tf passes (if depth + 1 ≥ 65535 then 65535 else depth + 1) p3.best st').getLast? = none →
+            (((completed pos k b pc tf passes (if depth + 1 ≥ 65535 then 65535 else depth + 1) p3.best st').getLast? = none →
               R.score = p3.score ∧ R.move = p3.best ∧ R.maxDepth = depth) ∧
-            (∀ d s, (completed k b pc tf passes (if depth + 1 ≥ 65535 then 65535 else depth + 1) p3.best st').getLast? = some (d, s) →
+            (∀ d s, (completed pos k b pc tf passes (if depth + 1 ≥ 65535 then 65535 else depth + 1) p3.best st').getLast? = some (d, s) →
               R.score = s ∧ R.maxDepth = d)) →
-            ((((depth, p3.score) :: completed k b pc tf passes (if depth + 1 ≥ 65535 then 65535 else depth + 1) p3.best st').getLast? = none →
+            ((((depth, p3.score) :: completed pos k b pc tf passes (if depth + 1 ≥ 65535 then 65535 else depth + 1) p3.best st').getLast? = none →
               R.score = bestScore ∧ R.move = bestMv ∧ R.maxDepth = maxDepth) ∧
-            (∀ d s, ((depth, p3.score) :: completed k b pc tf passes (if depth + 1 ≥ 65535 then 65535 else depth + 1) p3.best st').getLast? = some (d, s) →
+            (∀ d s, ((depth, p3.score) :: completed pos k b pc tf passes (if depth + 1 ≥ 65535 then 65535 else depth + 1) p3.best st').getLast? = some (d, s) →
               R.score = s ∧ R.maxDepth = d)) := by
           intro R hR
-          generalize completed k b pc tf passes (if depth + 1 ≥ 65535 then 65535 else depth + 1) p3.best st' = rest at hR
+          generalize completed pos k b pc tf passes (if depth + 1 ≥ 65535 then 65535 else depth + 1) p3.best st' = rest at hR
           obtain ⟨c1, c2⟩ := hcons rest
           refine ⟨fun h => ?_, fun d s h => ?_⟩
           · cases hl : rest.getLast? with
@@ -179,11 +183,11 @@ theorem deepen_reports (k : Nat) (b : Board) (pc : Color) (tf : ThreeFold) :
 
 /-- what `search` returns is the last completed pass (or the initial values if none completed) -/
 theorem search_reports (b : Board) (tf : ThreeFold) (k prev : Nat) :
-    match (searchPasses b tf k).getLast? with
-    | none => (search b tf k prev).score = worst b.turn ∧ (search b tf k prev).move = none ∧
-        (search b tf k prev).maxDepth = prev
-    | some (d, s) => (search b tf k prev).score = s ∧ (search b tf k prev).maxDepth = d := by
-  have h := deepen_reports k b b.turn tf (k + 2) 0 none (worst b.turn) prev ⟨0, 0⟩
+    match (searchPasses pos b tf k).getLast? with
+    | none => (search pos b tf k prev).score = worst b.turn ∧ (search pos b tf k prev).move = none ∧
+        (search pos b tf k prev).maxDepth = prev
+    | some (d, s) => (search pos b tf k prev).score = s ∧ (search pos b tf k prev).maxDepth = d := by
+  have h := deepen_reports pos k b b.turn tf (k + 2) 0 none (worst b.turn) prev ⟨0, 0⟩
   split
   · rename_i heq
     exact h.1 heq
